@@ -599,7 +599,7 @@ def generate():
                 "Definition weight_tree : dtree :=\n  %s.\n" % wt +
                 "Definition iv_tree : ivtree :=\n  %s.\n" % iv +
                 "Definition loss_table : list lrow :=\n  %s.\n" % lt)
-    except Unsupported as e:
+    except (Unsupported, ValueError, TypeError, IndexError, KeyError, AttributeError, AssertionError, RecursionError) as e:   # any surprise in the source = fail closed
         return HEAD + failed("LossAlignGen", str(e)) + FALLBACK
 
 
